@@ -216,13 +216,13 @@ class Batch:
 
     # ---------------------------------------------------------------- probed runs
     def start_case(self, key, info, cmp=None, cmpall=None, pf=False, cmpcb=True, cmpval=True, cmpsave=True,
-                   cmpres=True, chk11=False, chk12="", chk13="", probed=False):
+                   cmpres=True, chk11=False, chk12="", chk13="", probed=False, nopanic=False):
         self.ncases += 1
         self.cases[self.ncases] = dict(key=key, info=info)
         self.rich = bool(chk11 or chk12 or chk13)
         self.events.append(dict(cls="case", case=self.ncases, cmp=ALL_COMPS if cmp is None else cmp, cmpall=ALL_COMPS if cmpall is None else cmpall, pf=pf,
                                 cmpcb=cmpcb, cmpval=cmpval, cmpsave=cmpsave, cmpres=cmpres, chk11=chk11, chk12=chk12,
-                                chk13=chk13, probed=probed))
+                                chk13=chk13, probed=probed, nopanic=nopanic))
         self.evmeta.append((self.ncases, None))
         return self.ncases
 
